@@ -9,38 +9,59 @@
 (*   a 1 SP TAB NL CR DQ BS DOLLAR PCT LBRACE RBRACE HASH SLASH STAR LT    *)
 (*   MINUS DOT EQ NUL : one byte each;  BAD : one invalid byte (0xFF)      *)
 (*   MB : U+00E9 (2 bytes)   COMB : U+0301 (2 bytes)   ASTRAL : U+1F600 (4)*)
+(*   EXT3 : U+20DD combining enclosing circle (3 bytes, Extend)            *)
+(*   ZWJ  : U+200D zero width joiner (3 bytes, extends the cluster)        *)
+(*   VS   : U+FE0F variation selector-16 (3 bytes, Extend)                 *)
 (***************************************************************************)
 EXTENDS Integers, Sequences, FiniteSets, TLC
 
 LexClasses == {"a", "1", "SP", "TAB", "NL", "CR", "DQ", "BS", "DOLLAR", "PCT", "LBRACE", "RBRACE", "HASH", "SLASH", "STAR",
-               "LT", "MINUS", "DOT", "EQ", "NUL", "BAD", "MB", "COMB", "ASTRAL"}
+               "LT", "MINUS", "DOT", "EQ", "NUL", "BAD", "MB", "COMB", "ASTRAL", "EXT3", "ZWJ", "VS"}
 
-Width(c) == CASE c \in {"MB", "COMB"} -> 2 [] c = "ASTRAL" -> 4 [] OTHER -> 1
+Width(c) == CASE c \in {"MB", "COMB"} -> 2 [] c \in {"EXT3", "ZWJ", "VS"} -> 3 [] c = "ASTRAL" -> 4 [] OTHER -> 1
+Extenders == {"COMB", "EXT3", "ZWJ", "VS"}
 
 \* control characters never join a cluster (UAX #29 GB4/GB5); an invalid byte is a cluster of its own
 Control == {"NL", "CR", "TAB", "NUL", "BAD"}
 
 Pos(b, l, c) == [byte |-> b, line |-> l, col |-> c]
 
-\* position after reading class c when the previous class was prev ("" at the start of input)
-Advance(p, prev, c) ==
-    LET b == p.byte + Width(c) IN
-    CASE c = "NL" -> (IF prev = "CR"
-                      THEN Pos(b, p.line + 1, 1)          \* CR LF: the pair is one newline (the CR had taken a column)
-                      ELSE Pos(b, p.line + 1, 1))
-      [] c = "COMB" -> (IF prev = "" \/ prev \in Control THEN Pos(b, p.line, p.col + 1)
-                        ELSE Pos(b, p.line, p.col))       \* extends the previous cluster
-      [] OTHER -> Pos(b, p.line, p.col + 1)
+\* Grapheme cluster state after the last character (the part of UAX #29 this alphabet needs):
+\*   "ctrl"      at the start of input or after a control character: nothing can attach
+\*   "emoji"     the current cluster is an emoji (ExtPict) possibly followed by Extend characters
+\*   "emojizwj"  ... followed by a zero width joiner: the next emoji joins the same cluster (GB11)
+\*   "other"     any other cluster: Extend characters and ZWJ attach, nothing else does
+\* Advance returns the new position and the new cluster state.
+AdvanceSt(p, st, prev, c) ==
+    LET b == p.byte + Width(c)
+        same == Pos(b, p.line, p.col)
+        next == Pos(b, p.line, p.col + 1)
+    IN CASE c = "NL" -> [pos |-> Pos(b, p.line + 1, 1), st |-> "ctrl"]      \* also after CR: the pair is one newline
+         [] c \in Control \ {"NL"} -> [pos |-> next, st |-> "ctrl"]
+         [] c \in {"COMB", "EXT3", "VS"} ->
+                (IF st = "ctrl" THEN [pos |-> next, st |-> "other"]
+                 ELSE [pos |-> same, st |-> IF st = "emoji" THEN "emoji" ELSE "other"])
+         [] c = "ZWJ" ->
+                (IF st = "ctrl" THEN [pos |-> next, st |-> "other"]
+                 \* (the dependency's segmenter also lets a run of joiners keep the emoji sequence open)
+                 ELSE [pos |-> same, st |-> IF st \in {"emoji", "emojizwj"} THEN "emojizwj" ELSE "other"])
+         [] c = "ASTRAL" ->
+                (IF st = "emojizwj" THEN [pos |-> same, st |-> "emoji"] ELSE [pos |-> next, st |-> "emoji"])
+         [] OTHER -> [pos |-> next, st |-> "other"]
 
-\* positions at every class boundary of s, starting from p0: sequence of length Len(s)+1
-RECURSIVE Boundaries(_, _, _, _)
-Boundaries(s, i, p, prev) ==
-    IF i > Len(s) THEN <<p>>
-    ELSE <<p>> \o Boundaries(s, i + 1, Advance(p, prev, s[i]), s[i])
+\* positions (and cluster states) at every class boundary of s, starting from p0
+RECURSIVE BoundStates(_, _, _, _)
+BoundStates(s, i, p, st) ==
+    IF i > Len(s) THEN <<[pos |-> p, st |-> st]>>
+    ELSE LET r == AdvanceSt(p, st, IF i = 1 THEN "" ELSE s[i-1], s[i])
+         IN <<[pos |-> p, st |-> st]>> \o BoundStates(s, i + 1, r.pos, r.st)
 
-\* a boundary before index i (1-based, i = Len(s)+1 is the end) is a cluster boundary
-\* unless it would split CR LF or separate a base character from its combining mark
+Boundaries(s, i, p, prev) == LET bs == BoundStates(s, 1, p, "ctrl") IN [k \in 1..Len(bs) |-> bs[k].pos]
+
+\* a boundary before index i (1-based, i = Len(s)+1 is the end) is a cluster boundary iff the
+\* character at i starts a new column or line - except that LF after CR continues the CR's cluster
 ClusterBoundary(s, i) ==
     IF i = 1 \/ i = Len(s) + 1 THEN TRUE
-    ELSE ~(s[i-1] = "CR" /\ s[i] = "NL") /\ ~(s[i] = "COMB" /\ s[i-1] \notin Control)
+    ELSE LET bs == BoundStates(s, 1, Pos(0, 1, 1), "ctrl") IN
+         ~(s[i-1] = "CR" /\ s[i] = "NL") /\ (bs[i+1].pos.col # bs[i].pos.col \/ bs[i+1].pos.line # bs[i].pos.line)
 =============================================================================
